@@ -128,7 +128,7 @@ def S(id, prio, out, oc, *, praise=False, nm="print"):
 
 
 def stub_registries(tier):
-    ocs = ("esc", "c1", "print", "sp") if tier == "quick" else CLASS_ORDER
+    ocs = ("esc", "c1") if tier == "quick" else CLASS_ORDER
     regs = []
     for oc in ocs:
         regs.append((RAW, S("s1", 2, "ok", oc)))                    # auto picks the stub
@@ -351,10 +351,12 @@ def random_dns(rng: random.Random) -> bytes:
     b = R.Builder(id=rng.randrange(65536),
                   flags=R.flags(qr=rng.randrange(2), opcode=rng.choice([0, 0, 0, 1, 2, 4, 5, 7, 15]), aa=rng.randrange(2),
                                 tc=rng.randrange(2), rd=rng.randrange(2), ra=rng.randrange(2),
-                                z=rng.choice([0, 0, 0, 2, 1, 4, 7]), rcode=rng.choice([0, 0, 0, 2, 3, 5, 9, 11, 15])))
+                                z=rng.choice([0] * 17 + [2, 1, 4]), rcode=rng.choice([0, 0, 0, 2, 3, 5, 9, 11, 15])))
     label_pool = [b"example", b"com", b"www", b"a", b"ExAmple", b"xn--mnchen-3ya", b"_dmarc", b"a-b", b"x" * 63]
     if rng.random() < 0.25:
-        label_pool += [rng.choice(YAML_TRICKY)[:63] or b"e", b"a.b", b"a b"]
+        label_pool += [(rng.choice(YAML_TRICKY)[:63] or b"e").replace(b".", b"-"), b"a b"]
+    if rng.random() < 0.06:
+        label_pool += [b"a.b", b".inf"]  # a dot inside a label: not expressible in the dotted text form
 
     def name():
         n = rng.randint(0, 4)
@@ -570,27 +572,45 @@ class Check(core.PropertyCheck):
         reg = contentviews.registry
         names = [n for n in reg]
         table: dict = {}
+        from mitmproxy.contentviews import _utils as cvutils
+
+        def outcome(view, data, md):
+            try:
+                t = view.prettify(data, md)
+                return "ok" if isinstance(t, str) else None
+            except BaseException as ex:
+                if isinstance(ex, Exception):
+                    return "raises"
+                return None  # a view that panics is left to the fuzz scenarios
+
+        # the views are called directly here (not through prettify_message): this only sorts corpus inputs into
+        # "this view accepts it" / "this view fails on it" / "automatic selection picks this view"
         for c in ("print", "esc", "c1", "bin"):
             for ei, e in enumerate(corpus(MARK + variant(c, 0) + "e")):
                 try:
                     msg, f = make_message(e["kind"], e["data"], ct=e["ct"], path=e["path"], extra=e["extra"])
+                    data, _enc = cvutils.get_data(msg)
+                    md = cvutils.make_metadata(msg, f)
                 except Exception:
                     continue
-                for n in names:
-                    ev, _ = render(msg, f, n, None, mode="explicit", req=n, kind=e["kind"], content="present", inctl=False)
-                    if ev["raised"]:
-                        continue
-                    out = "raises" if ev["via"] == "error" else "ok"
-                    table.setdefault((n, "explicit", out), []).append((ei, c))
-                msg, f = make_message(e["kind"], e["data"], ct=e["ct"], path=e["path"], extra=e["extra"])
-                ev, res = render(msg, f, "auto", None, mode="auto", req="auto", kind=e["kind"], content="present", inctl=False)
-                if ev["raised"]:
+                if data is None:
                     continue
-                if ev["via"] == "fallback":
-                    failed = res.description.split("[failed to parse as ", 1)[1].rstrip("]").lower()
-                    table.setdefault((failed, "auto", "raises"), []).append((ei, c))
-                elif ev["via"] == "view":
-                    table.setdefault((ev["view"], "auto", "ok"), []).append((ei, c))
+                for n in names:
+                    if e["extra"].get("h3"):  # the HTTP/3 view keeps per-flow state: fresh flow per call
+                        msg, f = make_message(e["kind"], e["data"], ct=e["ct"], path=e["path"], extra=e["extra"])
+                        md = cvutils.make_metadata(msg, f)
+                    out = outcome(reg[n], data, md)
+                    if out:
+                        table.setdefault((n, "explicit", out), []).append((ei, c))
+                msg, f = make_message(e["kind"], e["data"], ct=e["ct"], path=e["path"], extra=e["extra"])
+                md = cvutils.make_metadata(msg, f)
+                try:
+                    best = reg.get_view(data, md, "auto")
+                except Exception:
+                    continue
+                out = outcome(best, data, md)
+                if out:
+                    table.setdefault((best.name.lower(), "auto", out), []).append((ei, c))
         self.table = table
         self.real_cases = sorted({(n, mode, out) for (n, mode, out) in table})
         ctx.notes["registered_views"] = names
@@ -604,15 +624,19 @@ class Check(core.PropertyCheck):
     def model_constants(self, tier):
         regs = stub_registries(tier)
         quick = tier == "quick"
-        dns = [{"z": z, "q": q, "rr": rr} for z in (0, 2) for q in (("plain", "dot", "ctl") if quick else ("plain", "dot", "ctl", "upper", "none"))
+        dns = [{"z": z, "q": q, "rr": rr} for z in (0, 2) for q in (("plain", "dot") if quick else ("plain", "dot", "ctl", "upper", "none"))
                for rr in (("none", "a", "txt", "txt_bad", "cname", "cname_bad", "https") if quick else
                           ("none", "a", "txt", "txt_bad", "cname", "cname_bad", "generic", "https", "opt"))]
         real = [{"id": n, "mode": m, "out": o} for (n, m, o) in (self.real_cases or [])]
         return {"StubRegs": frozenset(tuple(_FD(d) for d in r) for r in regs),
                 "RealCases": frozenset(_FD(r) for r in real),
-                "InClasses": frozenset(("print", "esc", "bin") if quick else CLASS_ORDER),
-                "MsgKinds": frozenset(("http", "tcp") if quick else ("http", "tcp", "udp", "ws")),
+                "InClasses": frozenset(("print", "esc") if quick else ("print", "esc", "c1", "bin", "sp")),
+                "MsgKinds": frozenset(("http", "tcp") if quick else ("http", "tcp", "ws")),
                 "DnsMsgs": frozenset(_FD(d) for d in dns), "MaxCalls": 1, "EccKeepsC1": ECC_KEEPS_C1}
+
+    def model_runs(self, ctx):
+        # generous timeout: the model is small, but TLC shares the machine with other checks
+        return [ctx.model_check(self.MODEL, self.model_constants(ctx.tier), dump=True, timeout=900 if ctx.quick else 3000)]
 
     # ---- scenarios -------------------------------------------------------------------------------------------
     def _scenario_of(self, beh, rng):
@@ -647,7 +671,7 @@ class Check(core.PropertyCheck):
             seen.add(key)
             yield core.Scenario(sc, predicted=pred, source="model")
         rng = random.Random(ctx.seed + 50)
-        n_real = 400 if ctx.quick else 6000
+        n_real = 1500 if ctx.quick else 20000
         for (n, mode, out), cands in sorted(self.table.items()):
             for _ in range(2 if ctx.quick else 12):   # every view x outcome x every payload class, beyond the model's pick
                 ei, _c = cands[rng.randrange(len(cands))]
@@ -656,7 +680,7 @@ class Check(core.PropertyCheck):
                                     source="suite")
         for _ in range(n_real):
             yield core.Scenario({"kind": "fuzz", "seed": rng.randrange(1 << 30)}, source="random")
-        for _ in range(400 if ctx.quick else 8000):
+        for _ in range(1500 if ctx.quick else 20000):
             yield core.Scenario({"kind": "dnsfuzz", "seed": rng.randrange(1 << 30)}, source="random")
 
     def drift_view(self, trace):
